@@ -5,17 +5,23 @@ import os
 ID = "C15"
 GEN = "c15"
 HARNESS_TEST = "TestC15"
-COQ_MODEL = ["C15/Check.v", "C15/Sites.v", "Gen/C15Facts.v"]
-COQ_PROOF_DEPS = ["C15/Proofs.v"]
+COQ_MODEL = ["C15/Check.v", "C15/Sites.v", "Gen/C15Facts.v", "C15/Current.v"]
+COQ_PROOF_DEPS = ["C15/Proofs.v", "C15/ProofsTree.v"]
 COQ_OBLIG = ["C15/Property.v", "Gen/C15Oblig.v"]
-CASES_HEADER = "Require Import Nib.C15.Model Nib.C15.Spec Nib.C15.Check.\nOpen Scope string_scope."
+CASES_HEADER = "Require Import Nib.C17.MsgTree Nib.C15.Model Nib.C15.Spec Nib.C15.Check Nib.C15.Current.\nOpen Scope string_scope."
 CASE_TYPE = "case"
-MISMATCH_FN = "mismatch"
+MISMATCH_FN = "mismatch current_wcfg"
 # The statement is evaluated to the letter ("violates_strict"): MsgBurnNative of tf coins by a holder who is not the
 # admin violates it -> open KNOWN FINDING (known_findings.json, signature {"kind": "burnnative-moves-tf-supply"}).
 # C15_LENIENT=1 evaluates the form the implementation realises (native burn of the signer's own coins allowed).
 VIOLATES_FN = "violates" if os.environ.get("C15_LENIENT") else "violates_strict"
-RULE = ("genesis export/import round trips of the module (export, empty the module store, import) at arbitrary points, after hand-overs to funded successors, to a never-funded address (no x/auth account) and on renounced / foreign-admin genesis denoms, followed by attempts of every party; the admins a genesis section states must be the admins installed; txs of 1-4 messages (35 % of the cases hold a tx whose LATER message fails — blocked target, unknown denom, not admin, "
+RULE = ("MESSAGE CARRIERS (77 % of the cases hold at least one): any message may ride in authz MsgExec wrappers (depth 1-3, grantee = signer of the inner "
+        "message or somebody else, with / without / after a revoked authz grant, grants for another message type, two levels with different grantees), "
+        "be dispatched by the case's own reflect contract (account 8, owner = user 0; Stargate messages through app/wasmext's handler; also called by a "
+        "non-owner), or both (contract-dispatched MsgExec naming the admin as grantee — 34 % of the cases hold such impersonation attempts against an "
+        "existing denom, incl. mint to the contract / burn from a holder / hand-over to the contract —, MsgExecuteContract inside MsgExec, MsgExec with "
+        "several messages); the contract as creator / admin / successor / granter of a denom (22 %); MsgGrant / MsgRevoke as messages of the history; "
+        "authz grants among users and contract are part of every snapshot; genesis export/import round trips of the module (export, empty the module store, import) at arbitrary points, after hand-overs to funded successors, to a never-funded address (no x/auth account) and on renounced / foreign-admin genesis denoms, followed by attempts of every party; the admins a genesis section states must be the admins installed; txs of 1-4 messages (35 % of the cases hold a tx whose LATER message fails — blocked target, unknown denom, not admin, "
         "insufficient funds — after a hand-over / mint in the same tx, signed by one or two signers, followed by mint / burn / hand-over "
         "attempts of every party); case = optional genesis denoms (renounced / foreign admin, pre-funded) + 4-12 token-factory messages "
         "(CreateDenom, Mint, Burn, ChangeAdmin, SetDenomMetadata, BurnNative) each delivered through DeliverTx, signed by "
@@ -23,13 +29,17 @@ RULE = ("genesis export/import round trips of the module (export, empty the modu
         "shapes; amounts incl. 0, negative, above balance; mint-to / burn-from: default, other users, blocked and unblocked "
         "module accounts, upper-case bech32, unparsable; 5 fixed opener histories first; non-trivial = some supply-changing "
         "message was accepted AND some message aimed at an existing denom by a non-admin (or a former admin after a "
-        "hand-over) was rejected; distinct = distinct input")
+        "hand-over, or through a carrier) was rejected; distinct = distinct input")
 ASSUMPTIONS = [
     "sdk.ValidateDenom, bech32 parsing of mint_to/burn_from/new_admin and bank Metadata.Validate are taken from the implementation as flags (dv, target, na_valid, md_valid)",
-    "every tx is signed by all its senders, fee 0; snapshots are taken after each TX",
+    "every tx is signed by the signers of all its TOP-LEVEL messages (nested messages are not signed: that is the point of carriers), fee 0; snapshots are taken after each TX",
+    "carriers: authz MsgExec / MsgGrant (GenericAuthorization, no expiry) / MsgRevoke with the SDK's DispatchActions rule (grantee's own messages implicitly accepted) and one reflect contract per case that re-dispatches whatever its owner sends; the ICA-host and gov-proposal carriers are in the model and the theorems (Nib.C17.MsgTree) but not driven; sub-message reply handling of contracts (errors swallowed by the contract) is not modelled",
+    "a token-factory leaf carries the account its sender string names (GetSigners of the built message, checked against the string by case_wf)",
     "addresses are renamed to @i / @Ui (injective), denoms keep their exact characters otherwise",
 ]
-TRUSTED = ["snapshot reads: BankKeeper.GetSupply / GetBalance, TokenFactoryKeeper.Store.GetDenomAuthorityMetadata"]
+TRUSTED = ["snapshot reads: BankKeeper.GetSupply / GetBalance, TokenFactoryKeeper.Store.GetDenomAuthorityMetadata, authz Keeper.GetAuthorization (a reader over the app's authz store)",
+           "coq/C17/MsgTree.v (shared message-tree dispatcher, also used by C17 and C02)",
+           "harness/gen/c15/wasm.go: go/ast reading of app/wasmext's per-message handler (found from DispatchMsg) as a guard sequence"]
 
 
 def _s(x):
@@ -59,6 +69,59 @@ def _target(t):
     if t == "!":
         return "TInvalid"
     return "(TAcct %s)" % _s(t)
+
+
+KINDS = {"create": "MKLeaf K_CREATE", "mint": "MKLeaf K_MINT", "burn": "MKLeaf K_BURN", "admin": "MKLeaf K_ADMIN",
+         "meta": "MKLeaf K_META", "burnnative": "MKLeaf K_BURNNATIVE", "grant": "MKLeaf K_GRANT", "revoke": "MKLeaf K_REVOKE",
+         "exec": "MKExec", "wasm": "MKWasm"}
+CONTRACT = 8
+
+
+def _n(x):
+    return "%d%%nat" % int(x)
+
+
+def _kind(k):
+    return KINDS.get(k, "MKLeaf 99%nat")
+
+
+def _tree(op, ob):
+    """Coq term of type msg (tree leaf) for one message with everything it carries"""
+    t = op["t"]
+    if t in ("exec", "wasm"):
+        kids = "; ".join(_tree(c, co) for c, co in zip(op.get("c") or [], ob.get("c") or []))
+        if t == "exec":
+            return "Exec %s [%s]" % (_n(op.get("g", 0)), kids)
+        return "Wasm %s %s [%s]" % (_n(op.get("g", 0)), _n(CONTRACT), kids)
+    if t == "grant":
+        return "Leaf (LGrant %s %s (%s))" % (_n(op["sender"]), _n(op.get("g", 0)), _kind(op.get("k", "")))
+    if t == "revoke":
+        return "Leaf (LRevoke %s %s (%s))" % (_n(op["sender"]), _n(op.get("g", 0)), _kind(op.get("k", "")))
+    return "Leaf (LOp %s (%s))" % (_n(ob.get("signer", 0) if t != "reimport" else 0), _op(op, ob))
+
+
+def _grants(gs):
+    return "[%s]" % "; ".join("(%s, %s, %s)" % (_n(g["from"]), _n(g["to"]), _kind(g["k"])) for g in (gs or []))
+
+
+def leaves(op, ob=None):
+    """token-factory leaves of a message tree, in execution order, as (op, obs-or-None, path of carriers)"""
+    out = []
+
+    def go(o, b, path):
+        if o["t"] in ("exec", "wasm"):
+            kids = o.get("c") or []
+            bk = (b or {}).get("c") or [None] * len(kids)
+            for c, cb in zip(kids, bk):
+                go(c, cb, path + [o["t"]])
+        elif o["t"] not in ("grant", "revoke"):
+            out.append((o, b, path))
+    go(op, ob, [])
+    return out
+
+
+def has_carrier(op):
+    return op["t"] in ("exec", "wasm")
 
 
 def _op(op, ob):
@@ -96,13 +159,15 @@ def to_coq_case(rec):
     steps = []
     for tx in _txs(rec):
         last = tx[-1][1]
-        steps.append("([%s], %s, %s)" % ("; ".join("(%s)" % _op(op, ob) for op, ob in tx), _b(last["ok"]), _raw(last["snap"])))
+        steps.append("([%s], %s, %s, %s)" % ("; ".join(_tree(op, ob) for op, ob in tx), _b(last["ok"]), _raw(last["snap"]),
+                                             _grants(last["snap"].get("grants"))))
     gen = "; ".join("(%s, Some %s)" % (_s(g["denom"]), _s(g.get("admin", ""))) for g in (rec["input"].get("genesis") or []))
-    return "([%s], [%s], %s, %s, [%s])" % ("; ".join(_s(b) for b in o["blocked"]), gen, _keys(o["init"]), _raw(o["init"]), ";\n    ".join(steps))
+    return "([%s], [%s], %s, %s, %s, [%s])" % ("; ".join(_s(b) for b in o["blocked"]), gen, _keys(o["init"]), _raw(o["init"]),
+                                               _grants(o["init"].get("grants")), ";\n    ".join(steps))
 
 
 def _admin_before(rec):
-    """admin map (canonical) before the TX each message rides in"""
+    """admin map (canonical) before the TX each top-level message rides in"""
     out = []
     cur = {d: a for d, a in rec["obs"]["init"]["admin"]}
     for tx in _txs(rec):
@@ -110,6 +175,20 @@ def _admin_before(rec):
             out.append(dict(cur))
         cur = {d: a for d, a in tx[-1][1]["snap"]["admin"]}
     return out
+
+
+def _shape(op):
+    """carrier chain of a message, e.g. wasm>exec>mint"""
+    if op["t"] in ("exec", "wasm"):
+        kids = op.get("c") or []
+        return op["t"] + ">" + (_shape(kids[0]) if kids else "()") + ("+%d" % (len(kids) - 1) if len(kids) > 1 else "")
+    return op["t"]
+
+
+def _depth(op):
+    if op["t"] in ("exec", "wasm"):
+        return 1 + max([_depth(c) for c in (op.get("c") or [])] + [0])
+    return 0
 
 
 def nontrivial(rec):
@@ -122,37 +201,61 @@ def nontrivial(rec):
         if cur != prev:
             moved = True
         prev = cur
-        d = op.get("denom", "")
-        if op["t"] in ("mint", "burn", "admin", "meta") and adm.get(d) is not None and not ob["ok"] and adm.get(d) != "@%d" % op["sender"]:
-            refused = True
+        for lf, _, path in leaves(op, ob):
+            d = lf.get("denom", "")
+            if lf["t"] in ("mint", "burn", "admin", "meta") and adm.get(d) is not None and not ob["ok"]:
+                # aimed at an existing denom and refused: by somebody who is not the admin, or through a carrier
+                if adm.get(d) != "@%d" % lf["sender"] or path:
+                    refused = True
     return moved and refused
 
 
 def classify(rec):
-    ks = ["ops=%d" % len(rec["input"]["ops"]), "genesis=%d" % len(rec["input"].get("genesis") or [])]
+    ks = ["ops=%d" % min(len(rec["input"]["ops"]), 30), "genesis=%d" % len(rec["input"].get("genesis") or [])]
     for tx in _txs(rec):
         if len(tx) > 1:
             ks.append("multi-msg-tx(%d):%s" % (min(len(tx), 4), "accepted" if tx[-1][1]["ok"] else "rolled-back"))
-            if len({op["sender"] for op, _ in tx}) > 1:
+            if len({ob.get("signer", op["sender"]) for op, ob in tx}) > 1:
                 ks.append("multi-signer-tx")
     before = _admin_before(rec)
+    any_carrier = False
     for op, ob, adm in zip(rec["input"]["ops"], rec["obs"]["ops"], before):
-        ks.append("op:%s/%s" % (op["t"], "accepted" if ob["ok"] else "rejected"))
-        d = op.get("denom", "")
-        if op["t"] == "reimport":
+        res = "accepted" if ob["ok"] else "rejected"
+        if op["t"] in ("grant", "revoke"):
+            ks.append("op:%s/%s" % (op["t"], res))
             continue
-        if op.get("new_admin") == "@7" or adm.get(d) == "@7":
-            ks.append("admin-without-account")
-        if op["t"] != "create":
-            known = adm.get(d) is not None
-            ks.append("denom:" + ("registered" if known else "unregistered"))
-            if known and op["t"] != "burnnative":
-                ks.append("signer:" + ("admin" if adm.get(d) == "@%d" % op["sender"] else "not-admin"))
-        if op["t"] in ("mint", "burn"):
-            t = ob["target"]
-            ks.append("target:" + ("default" if t == "" else "unparsable" if t == "!" else "module" if t in ("@4", "@5", "@6") else "other-user"))
-        if op["t"] == "burnnative" and ob["ok"] and d.startswith("tf/"):
-            ks.append("burnnative-of-tf-denom-accepted")
+        if has_carrier(op):
+            any_carrier = True
+            ks.append("carrier:%s/%s" % (_shape(op), res))
+            ks.append("carrier-depth=%d" % _depth(op))
+        for lf, lb, path in leaves(op, ob):
+            if lf["t"] in ("grant", "revoke"):
+                continue
+            ks.append("op:%s/%s" % (lf["t"], res))
+            d = lf.get("denom", "")
+            if lf["t"] == "reimport":
+                continue
+            if lf.get("new_admin") == "@7" or adm.get(d) == "@7":
+                ks.append("admin-without-account")
+            if lf.get("sender") == CONTRACT or adm.get(d) == "@8" or lf.get("new_admin") == "@8":
+                ks.append("contract-as-party")
+            if lf["t"] != "create":
+                known = adm.get(d) is not None
+                ks.append("denom:" + ("registered" if known else "unregistered"))
+                if known and lf["t"] != "burnnative":
+                    is_admin = adm.get(d) == "@%d" % lf["sender"]
+                    ks.append("signer:" + ("admin" if is_admin else "not-admin"))
+                    if path and is_admin:
+                        ks.append("admin-message-in-carrier:%s/%s" % (path[0], res))
+            if lf["t"] in ("mint", "burn") and lb is not None:
+                t = lb["target"]
+                ks.append("target:" + ("default" if t == "" else "unparsable" if t == "!" else "module" if t in ("@4", "@5", "@6") else "contract" if t == "@8" else "other-user"))
+            if lf["t"] == "burnnative" and ob["ok"] and d.startswith("tf/"):
+                ks.append("burnnative-of-tf-denom-accepted")
+    if any_carrier:
+        ks.append("case-with-carrier")
+    if any(ob["snap"].get("grants") for ob in rec["obs"]["ops"]):
+        ks.append("case-with-grant")
     return ks
 
 
@@ -170,8 +273,8 @@ def _key(rec):
 
 
 def _is_candidate(rec):
-    return any(op["t"] == "burnnative" and ob["ok"] and op.get("denom", "").startswith("tf/")
-               for op, ob in zip(rec["input"]["ops"], rec["obs"]["ops"]))
+    return any(lf["t"] == "burnnative" and ob["ok"] and lf.get("denom", "").startswith("tf/")
+               for op, ob in zip(rec["input"]["ops"], rec["obs"]["ops"]) for lf, _, _ in leaves(op, ob))
 
 
 def _env():
@@ -197,7 +300,7 @@ def _eval_lenient(recs, tag):
             f.write("Set Printing Width 1000000. Set Printing Depth 1000000.\n")
             f.write("Definition cases : list (nat * case) := [\n")
             f.write(";\n".join("  (%d%%nat, %s)" % (i, to_coq_case(r)) for i, r in enumerate(sh)))
-            f.write("\n].\nDefinition L := Eval vm_compute in map fst (filter (fun c => andb (negb (violates (snd c))) (negb (mismatch (snd c)))) cases).\nPrint L.\n")
+            f.write("\n].\nDefinition L := Eval vm_compute in map fst (filter (fun c => andb (negb (violates (snd c))) (negb (" + MISMATCH_FN + " (snd c)))) cases).\nPrint L.\n")
         try:
             p = subprocess.run(["coqc", "-Q", coq, "Nib", path], cwd=wd, stdout=subprocess.PIPE, stderr=subprocess.STDOUT,
                                text=True, timeout=1200)
@@ -254,14 +357,18 @@ def signature(rec):
     """The known finding is identified ONLY when the lenient property holds on the trace (and the model agrees with it),
     i.e. the sole reason the statement-to-the-letter fails is a MsgBurnNative by which the signer burnt exactly the
     stated amount of its own tf coins.  Anything else gets a different signature and is reported as a VIOLATION."""
-    kinds = sorted({op["t"] for op in rec["input"]["ops"]})
+    kinds = sorted({op["t"] for op in rec["input"]["ops"]} | {lf["t"] for op in rec["input"]["ops"] for lf, _, _ in leaves(op)})
     if _is_candidate(rec) and _lenient_holds(rec):
         return {"kind": "burnnative-moves-tf-supply"}
     return {"kind": "tokenfactory-authority", "ops": kinds}
 
 
+def _size(op):
+    return 10 + sum(_size(c) for c in (op.get("c") or []))
+
+
 def input_size(inp):
-    return 10 * len(inp["ops"]) + 5 * len(inp.get("genesis") or [])
+    return sum(_size(o) for o in inp["ops"]) + 5 * len(inp.get("genesis") or [])
 
 
 def shrink_candidates(inp):
@@ -276,6 +383,17 @@ def shrink_candidates(inp):
     gs = inp.get("genesis") or []
     for i in range(len(gs)):
         out.append(dict(inp, genesis=gs[:i] + gs[i + 1:]))
+    # carriers: drop one carried message, or peel the outermost carrier off a single carried message
+    for i, o in enumerate(ops):
+        kids = o.get("c") or []
+        if o["t"] in ("exec", "wasm"):
+            if len(kids) > 1:
+                for k in range(len(kids)):
+                    out.append(dict(inp, ops=ops[:i] + [dict(o, c=kids[:k] + kids[k + 1:])] + ops[i + 1:]))
+            if len(kids) == 1:
+                out.append(dict(inp, ops=ops[:i] + [dict(kids[0], join=o.get("join", False))] + ops[i + 1:]))
+                if kids[0]["t"] in ("exec", "wasm") and len(kids[0].get("c") or []) == 1:
+                    out.append(dict(inp, ops=ops[:i] + [dict(o, c=kids[0]["c"])] + ops[i + 1:]))
     return out
 
 
@@ -292,7 +410,15 @@ MANIFEST = {
                  "later history); C15_non_tf_denoms_untouched (+ over histories); C15_balance_moves_only_as_target; C15_conservation; "
                  "C15_former_admin_rejected / C15_not_admin_rejected. The model is run against real DeliverTx traces (snapshots of supply, "
                  "balances, admins after every message) and the proved-sound checker Pb (C15_checker_sound) is evaluated on those traces in "
-                 "its strict form."),
+                 "its strict form. MESSAGE CARRIERS (authz MsgExec to any depth with / without grants, contract dispatch, combinations; trees of "
+                 "Nib.C17.MsgTree): 'signed by the current admin' is the authorisation relation `reaches` (every delegation edge vouched: below MsgExec the "
+                 "grantee's own message or a grant on record, below a contract dispatch the contract's own message). Proved for EVERY tree, state and world, "
+                 "given the generated-fact obligation C15_wasm_handler_checks_signers_of_every_dispatched_message: "
+                 "C15_carriers_supply_moves_only_by_reached_admin_message_partial, C15_carriers_admin_moves_only_by_reached_admin_message, "
+                 "C15_carriers_balance_moves_only_by_reached_message (+ tx forms), C15_contract_dispatches_only_its_own_messages, "
+                 "C15_contract_cannot_exec_for_others, C15_exec_child_is_grantees_or_granted, C15_accepted_tx_passes_authority_walk; REFUTED for a handler "
+                 "that does not check (C15_carriers_unchecked_handler_refuted: the contract dispatches MsgExec{grantee: admin}[MsgMint{sender: admin}]). The "
+                 "trace checker Pbt (C15_tree_checker_sound) adds the authority clause: an accepted tx passes the authority walk from the grants on record."),
         "design_ref": "DESIGN.md §5 C15",
     },
     "level_note": ("PARTIAL w.r.t. the statement: the first clause holds only with the extra MsgBurnNative disjunct (theorem ..._partial); the "
@@ -301,6 +427,7 @@ MANIFEST = {
                    "checker holds on the record and model = implementation (decided by coqc on that record). Flags taken from the "
                    "implementation: sdk.ValidateDenom, bech32 parsing of mint_to/burn_from/new_admin, bank Metadata.Validate, BlockedAddr. "
                    "Txs of 1-4 messages, fee 0, correctly signed by all senders; the multi-message clause of the trace property (supply / admin move only if the tx carries such a message, first authority-needing message per denom signed by the admin on record) is evaluated on traces but proved for the model only message-wise (C15_accepted_tx_each_message). Generated facts (Gen/C15Facts.v, obligation C15_current_handlers_match_model): per handler the ordered guards / gates / writes with locals inlined and same-package helpers followed, admin-lookup store keys, DenomStr.ToStruct reject conditions, denom format. "
+                   "Carriers: the model's admission test at a contract dispatch comes from the generated fact wasm_dispatch_events (signers-are-contract before routing, only refusing steps in front); authz's DispatchActions rule is modelled by hand (SDK code, not regenerated). "
                    "Trusted: Coq kernel + vm_compute, the driver's address renaming (@i / @Ui, injective) and snapshot reads."),
-    "technique": "Coq proof (per-message case analysis, invariants and induction over histories; refutation by vm_compute witness) + generated handler-event facts + differential correspondence on DeliverTx traces",
+    "technique": "Coq proof (per-message case analysis, invariants and induction over histories and over message trees; refutation by vm_compute witness) + generated handler-event facts + differential correspondence on DeliverTx traces",
 }
